@@ -24,7 +24,7 @@ type specCase struct {
 
 func c10Gen(t *rapid.T, r *h.Rec) specCase {
 	av, onEx, onCl := avoidOpts(r)
-	o := &synth.Opts{Avoid: av, OnExclude: onEx, OnClass: onCl, SubPkgs: true, SameNamePkgs: true, Diamonds: true, ShortModule: true, Spelling: true, EnumStress: true, Unions: 0,
+	o := &synth.Opts{Avoid: av, OnExclude: onEx, OnClass: onCl, SubPkgs: true, SameNamePkgs: true, SameNameAsRoot: true, Diamonds: true, ShortModule: true, Spelling: true, EnumStress: true, Unions: 0,
 		FixedArrays: true, Maps: true, MaxDecls: 9, MinDecls: 2, Pointers: true}
 	return specCase{Spec: synth.GenTypes(t, o)}
 }
